@@ -4,7 +4,8 @@
    DepositedTokens grid (tracked addresses x collections), the MintCount grid,
    MintableNumTokens, start time and per-address limit from Config, the owner of every
    source token (0 = OwnerOf fails, i.e. burned) and of every target token id. *)
-From LP Require Import Num Pay Sg1 TokenMerge.
+From Coq Require String.
+From LP Require Import Num Pay Sg1 TokenMerge TokenMergeMigrate.
 
 Record c17_obs := mkObs {
   ob_ok : bool;
@@ -14,42 +15,47 @@ Record c17_obs := mkObs {
   ob_start : N;
   ob_limit : N;
   ob_src : list N;
-  ob_tgt : list N
+  ob_tgt : list N;
+  ob_cw2 : option cw2info     (* after a Migrate step: the cw2 info found in storage afterwards; None on other steps *)
 }.
 
 Inductive c17_case :=
 | C17Case (st0 : tm_state) (minter : N) (src0 : list (pkey * N))
           (addrs colls : list N) (srctoks : list pkey) (tgttoks : list N)
-          (init : c17_obs) (steps : list (N * wop * c17_obs)).
+          (init : c17_obs) (steps : list (N * xstep * c17_obs)).
 
 Definition nlist_eqb := list_eqb N.eqb.
 
-Definition obs_of (addrs colls : list N) (srctoks : list pkey) (tgttoks : list N) (ok : bool) (w : world) : c17_obs :=
+Definition obs_of (addrs colls : list N) (srctoks : list pkey) (tgttoks : list N) (ok : bool) (w : world) (c : option cw2info) : c17_obs :=
   mkObs ok
         (flat_map (fun a => map (fun c => ledger (w_m w) a c) colls) addrs)
         (map (fun a => count (w_m w) a) addrs)
         (tm_mintable (w_m w)) (tm_start (w_m w)) (tm_limit (w_m w))
         (map (fun k => src_owner w (fst k) (snd k)) srctoks)
-        (map (fun t => tgt_owner w t) tgttoks).
+        (map (fun t => tgt_owner w t) tgttoks)
+        c.
+
+Definition cw2_eqb (a b : cw2info) : bool := String.eqb (fst a) (fst b) && String.eqb (snd a) (snd b).
 
 Definition obs_eqb (a b : c17_obs) : bool :=
   Bool.eqb (ob_ok a) (ob_ok b) && nlist_eqb (ob_ledger a) (ob_ledger b) && nlist_eqb (ob_counts a) (ob_counts b)
   && (ob_mintable a =? ob_mintable b) && (ob_start a =? ob_start b) && (ob_limit a =? ob_limit b)
-  && nlist_eqb (ob_src a) (ob_src b) && nlist_eqb (ob_tgt a) (ob_tgt b).
+  && nlist_eqb (ob_src a) (ob_src b) && nlist_eqb (ob_tgt a) (ob_tgt b)
+  && option_eqb cw2_eqb (ob_cw2 a) (ob_cw2 b).
 
 Fixpoint run_check (addrs colls : list N) (srctoks : list pkey) (tgttoks : list N)
-                   (w : world) (steps : list (N * wop * c17_obs)) : bool :=
+                   (w : world) (steps : list (N * xstep * c17_obs)) : bool :=
   match steps with
   | [] => true
   | (now, op, ob) :: t =>
-      let '(w', ok) := wstep now op w in
-      obs_eqb (obs_of addrs colls srctoks tgttoks ok w') ob && run_check addrs colls srctoks tgttoks w' t
+      let '(w', ok, c') := wxstep now op w in
+      obs_eqb (obs_of addrs colls srctoks tgttoks ok w' c') ob && run_check addrs colls srctoks tgttoks w' t
   end.
 
 Definition c17_check (c : c17_case) : bool :=
   match c with
   | C17Case st0 minter src0 addrs colls srctoks tgttoks init steps =>
       let w0 := mkWorld st0 minter src0 [] in
-      obs_eqb (obs_of addrs colls srctoks tgttoks true w0) init
+      obs_eqb (obs_of addrs colls srctoks tgttoks true w0 None) init
       && run_check addrs colls srctoks tgttoks w0 steps
   end.
